@@ -226,7 +226,7 @@ class Ctx:
             v = load_json(os.path.join(self.path("%s-judge%d" % (tag, k)), "verdict.json"))
             n += v["n"]
             for f in v["failed"]:
-                failed[f["id"]] = sorted(f["clauses"])
+                failed[f["id"]] = sorted(f["clauses"], key=lambda c: json.dumps(c, sort_keys=True))
         if n != len(rows):
             raise CheckError("%s judged %d observations, %d were written" % (module, n, len(rows)))
         self.traces_validated = getattr(self, "traces_validated", 0) + n
